@@ -15,13 +15,16 @@ BleMsgs == {M(kk, a, h, FALSE, 7, "") : kk \in {"read", "gatterr"}, a \in {1, 2}
 SubMsgs == {M("state", 0, 0, FALSE, 11, "SensorState"), M("log", 0, 0, FALSE, 5, "")}
            \cup {M("cam", 0, c, f, key, "") : c \in {1, 2}, f \in BOOLEAN, key \in {1, 2}}
            \cup {M("vareq", 0, 0, f, 5, "") : f \in BOOLEAN} \cup {M("vaaudio", 0, 0, f, 2, "") : f \in BOOLEAN}
+           \cup {M("vafin", 0, 0, FALSE, 1, "")}
 Chunks == UNION {[1..n -> Msgs] : n \in 1..MaxChunk}
 Act2(y, tok, htok) == /\ ~fin /\ k < MaxSteps /\ k' = k + 1 /\ s' = y /\ last' = tok /\ UNCHANGED fin
                       /\ hist' = IF GenMode THEN Append(hist, htok) ELSE hist
 Act(y, tok) == Act2(y, tok, tok)
 MNext ==
   \/ \E i \in OpIds, kk \in OpKinds, a \in {1}, h \in {1} :
-        s.ops[i].st = "none" /\ (i = "o1" \/ s.ops["o1"].k # "none") /\ Act2(UserOp(s, i, kk, a, h), <<"op", i>>, <<"op", i, kk, a, h>>)
+        /\ s.ops[i].st = "none" /\ (i = "o1" \/ s.ops["o1"].k # "none")
+        /\ LET aa == IF kk = "announce" THEN 0 ELSE a hh == IF kk = "announce" THEN 0 ELSE h
+           IN Act2(UserOp(s, i, kk, aa, hh), <<"op", i>>, <<"op", i, kk, aa, hh>>)
   \/ s.up /\ \E ms \in Chunks : Act(EnvChunk(s, ms), <<"chunk", ms>>)
   \/ \E i \in OpIds : OpStepEnabled(s, i) /\ Act(OpStep(s, i), <<"step", i>>)
   \/ \E i \in OpIds : Due(s, OpTimer(i)) /\ Act(OpTimerFire(s, i), <<"timer", i>>)
